@@ -582,7 +582,9 @@ class Sim:
             for _, w in en:
                 tot += w
             p = cfg["p_act"] * min(1.0, tot)
-            if not self.loop._ready and self.deliverable():
+            if not self.loop._ready and self.loop.next_timer() is None:
+                p = 2.0  # nothing can run and no timer is pending: an event must happen
+            elif not self.loop._ready and self.deliverable():
                 # the clock would jump while bytes are in flight: a network delay,
                 # chosen deliberately and rarely
                 p = max(p, 1.0 - cfg["p_delay"])
@@ -607,6 +609,11 @@ class Sim:
         acts = self.trace_in["actions"]
         while True:
             if self.run_left > 0:
+                if not self.loop._ready and self.loop.next_timer() is None:
+                    # nothing can run and no timer is pending: letting the loop run is
+                    # meaningless here (can only arise in an edited trace)
+                    self.run_left = 0
+                    continue
                 self.run_left -= 1
                 self._record_run()
                 return
@@ -685,6 +692,18 @@ class Sim:
         """Record a simulator-side failure from a context where raising is unsafe."""
         self.harness_errors.append(msg)
         self._stop("harness-error")
+
+    def on_stuck(self):
+        """Called by the loop when nothing is ready and no timer is pending."""
+        if self.phase == FAULT:
+            self.begin_settle()
+        if self.phase == SETTLE:
+            acts = self.settle_actions()
+            if acts:
+                for a in acts:
+                    self.fire(a)
+                return
+        self._stop("quiescent-forever")
 
     def _stop(self, why):
         if self.stop_reason is None:
